@@ -50,7 +50,9 @@ inline std::string check(const std::string& input, unsigned coin, bool with_allo
         if (st != model::NUM_WORDS && st != model::LANG) { r.R++; recog = (int)li; }
         if (memcmp(buf, s.c_str(), s.size() + 1) != 0) err = "decode_explicit modified its input string";
     }
-    const polyseed_lang* lo = nullptr; polyseed_data* sd = nullptr; lib::Image img_a{};
+    // what the caller's lang_out variable holds before the call is irrelevant: it starts as some registered language (or NULL), chosen from the input
+    uint64_t hin = vf::fnv1a((const uint8_t*)s.data(), s.size()); size_t pick = (size_t)(hin % (REG.size() + 1));
+    const polyseed_lang* lo = pick < REG.size() ? REG.langs[pick].lang : nullptr; polyseed_data* sd = nullptr; lib::Image img_a{};
     if (err.empty()) {
         r.st = (int)polyseed_decode(buf, (polyseed_coin)coin, &lo, &sd);
         if (r.st < 0 || r.st > 7 || r.st == model::FORMAT) err = std::string("decode returned the undocumented status ") + std::to_string(r.st);
@@ -62,6 +64,12 @@ inline std::string check(const std::string& input, unsigned coin, bool with_allo
         polyseed_data* sn = nullptr; int stn = (int)polyseed_decode(buf, (polyseed_coin)coin, nullptr, &sn); lib::Image in{}; if (stn == 0 && sn) { in = lib::store(sn); polyseed_free(sn); }
         if (stn != r.st) err = std::string("decode with lang_out = NULL returned ") + model::status_name(stn) + " but " + model::status_name(r.st) + " with a lang_out pointer";
         else if (stn == 0 && in != img_a) err = "decode with lang_out = NULL yields a different seed";
+    }
+    if (err.empty() && !c14_only && r.R >= 1) { // ... in particular when it already names a language that recognises the phrase
+        for (size_t li = 0; li < REG.size() && err.empty(); li++) { if (r.E[li] == model::NUM_WORDS || r.E[li] == model::LANG) continue;
+            const polyseed_lang* lh = REG.langs[li].lang; polyseed_data* sh = nullptr; int sth = (int)polyseed_decode(buf, (polyseed_coin)coin, &lh, &sh); lib::Image ih{}; if (sth == 0 && sh) { ih = lib::store(sh); polyseed_free(sh); }
+            if (sth != r.st) err = std::string("decode returns ") + model::status_name(sth) + " when the lang_out variable already holds " + REG.langs[li].name_en + ", and " + model::status_name(r.st) + " otherwise";
+            else if (sth == 0 && (ih != img_a || lh != lo)) err = "decode yields a different seed / language when the lang_out variable already holds " + REG.langs[li].name_en; }
     }
     if (err.empty() && ledger && !k.ledger_errors.empty()) err = "allocator ledger: " + k.ledger_errors[0];
     if (!ledger) { for (auto& b : k.live) free(b.first); k.live.clear(); k.ledger_errors.clear(); live0 = 0; }
